@@ -130,6 +130,10 @@ class Recorder:
 
             def release():
                 sid = stream.id
+                if self.in_process:
+                    # client Handler.accept refusing a peer-opened stream: register + release are both
+                    # part of processing the RequestReceived event, which the model does in one step
+                    return rel()
                 if self.proc.streams.get(sid) is stream:
                     self.poll()
                     self.release_snaps.append((len(self.tokens), sid, self.snapshot(sid, stream)))
